@@ -21,6 +21,7 @@ EXTENDS Naturals, Integers, Sequences, FiniteSets, TLC, Json
 
 CONSTANTS Cfgs, Stores, CerSets,      \* CerSets: set of sequences of ceremony descriptors run concurrently
           Lock,                      \* "mutex" | "rwlock"
+          PlanOk(_),                 \* which (cfg, store, ceremonies) combinations are explored
           Known, Export
 
 C == INSTANCE Ceremony
@@ -34,6 +35,7 @@ Procs == 1..N
 
 Init ==
     /\ plan \in [cfg : Cfgs, store : Stores, cers : CerSets]
+    /\ PlanOk(plan)
     /\ store = plan.store
     /\ nnew = 0
     /\ cers = [i \in 1..Len(plan.cers) |-> C!NewCer("ctap2", plan.cers[i].op, plan.cers[i].req, plan.cers[i].env)]
